@@ -23,6 +23,12 @@ CLAIMED = {
  "C11": dict(engine="E1", design="§5 C11", technique="exhaustive enumeration of labelled digraphs rendered as programs; permutation and topological-order oracle on the recovered definition order",
      text="Every labelled digraph with self loops on ≤ 3 nodes × 11 edge carriers, × every node-kind assignment (struct, two enum forms, alias, const) × serde-renamed node; every digraph on 4 nodes (acyclic only in quick; all 65 536 × 4 carriers in thorough); seven parametric families up to 12 nodes under every rotation of the labeling; for the five backends sharing the ordering.",
      note="Graphs with 5+ nodes only from the named families."),
+ "C12": dict(engine="E1", design="§5 C12", technique="bounded exhaustive product over helper-triggering types, positions and nesting chains; helper uses ⊆ definitions ∪ imports from a token scan of the real output",
+     text="16 trigger types × 7 positions × every nesting chain of depth ≤ 2 (quick) / ≤ 3 (thorough) over 6 constructors × field attributes × 6 languages, plus all ordered trigger pairs; every helper name in use (Swift CodableVoid, Scala unsigned aliases, Python typing/pydantic/enum/datetime names, TypeVars and (de)serialiser functions, Go package qualifiers, Kotlin serialization annotations, TS reviver/replacer pair) must be defined or imported in the same output.",
+     note="Single-file mode; multi-file Swift Codable.swift is exercised by the CLI-level checks. Vocabulary is per backend and fixed."),
+ "C15": dict(engine="E1", design="§5 C15", technique="bounded exhaustive enumeration of doc strings over a token alphabet; differential token-stream oracle (with docs vs without docs)",
+     text="Every word of length ≤ 2 (quick) / ≤ 3 (thorough) over {text, newline, */, /*, //, triple quotes (both), backslash, #, backtick}, with and without separating spaces, in each Rust doc syntax that can express it, at 6 documentable positions, for 6 languages (~240k executions thorough). The code token stream of the output (comments/docstrings removed by a per-language tokenizer) must equal that of the doc-free program, tokenizing must not end inside an open comment/string, and the sentinels around the payload must lie inside comment tokens.",
+     note="Trusted: the per-language tokenizers' notion of comment/docstring."),
  "C13": dict(engine="E1", design="§5 C13", technique="bounded exhaustive enumeration of cfg expressions × target lists × attachment levels vs the documented rule evaluated on the generator's AST",
      text="All 10 015 cfg expressions of depth ≤ 3 over any/all/not with leaves target_os=a|b|c, feature, unix × all 16 target lists over {a,b,c,d} × 8 attachment levels × 2 attribute orders, pairs and triples of separate cfg attributes; thorough adds all 7.2M depth-4 expressions over a reduced leaf set × 7 lists. Presence of each guarded element is read from the real parser's result.",
      note="Trusted: the rule as stated in the property / docs; observation through public ParsedData fields. Levels not documented (tuple payloads) are not judged."),
